@@ -869,6 +869,95 @@ example : IsAffine (⟨0, 2, 0, 0, -2, 0, 0, 0, 0, 0, 2, 0, 5, 6, 7, 1⟩ : M44 
   · exact ⟨rfl, rfl, rfl, rfl⟩
   · norm_num [det3]
 
+/-! ## members no clause names: operator=, copy constructor, default constructor, ==, !=, hither / yon, FrustumTest's stores -/
+theorem assign_persp (n f l r t b : α) : Gen.Frustum.assign_persp n f l r t b = (n, f, l, r, t, b, false) := rfl
+theorem assign_ortho (n f l r t b : α) : Gen.Frustum.assign_ortho n f l r t b = (n, f, l, r, t, b, true) := rfl
+theorem copyCtor_persp (n f l r t b : α) : Gen.Frustum.copyCtor_persp n f l r t b = (n, f, l, r, t, b, false) := rfl
+theorem copyCtor_ortho (n f l r t b : α) : Gen.Frustum.copyCtor_ortho n f l r t b = (n, f, l, r, t, b, true) := rfl
+theorem hitherYon_persp (n f l r t b : α) : Gen.Frustum.hitherYon_persp n f l r t b = (n, f) := rfl
+theorem hitherYon_ortho (n f l r t b : α) : Gen.Frustum.hitherYon_ortho n f l r t b = (n, f) := rfl
+/-- `Frustum ()`: near `T (0.1)` (the literal is the double nearest to 1/10), far 1000, window [-1,1]², perspective -/
+theorem defaultCtor : (Gen.Frustum.defaultCtor : α × α × α × α × α × α × Bool) =
+    ((3602879701896397 : α) / 36028797018963968, 1000, -1, 1, 1, -1, false) := rfl
+example : |(3602879701896397 : ℚ) / 36028797018963968 - 1 / 10| < 1 / 10 ^ 17 := by norm_num [abs_lt]
+/-- `operator==` is equality of all seven fields, `operator!=` its negation -/
+theorem eq_persp_persp (n f l r t b n2 f2 l2 r2 t2 b2 : α) :
+    Gen.Frustum.eq_persp_persp n f l r t b n2 f2 l2 r2 t2 b2 =
+      (decide (n = n2 ∧ f = f2 ∧ l = l2 ∧ r = r2 ∧ t = t2 ∧ b = b2), !decide (n = n2 ∧ f = f2 ∧ l = l2 ∧ r = r2 ∧ t = t2 ∧ b = b2)) := by
+  simp only [Gen.Frustum.eq_persp_persp]; split_ifs <;> simp_all
+theorem eq_ortho_ortho (n f l r t b n2 f2 l2 r2 t2 b2 : α) :
+    Gen.Frustum.eq_ortho_ortho n f l r t b n2 f2 l2 r2 t2 b2 =
+      (decide (n = n2 ∧ f = f2 ∧ l = l2 ∧ r = r2 ∧ t = t2 ∧ b = b2), !decide (n = n2 ∧ f = f2 ∧ l = l2 ∧ r = r2 ∧ t = t2 ∧ b = b2)) := by
+  simp only [Gen.Frustum.eq_ortho_ortho]; split_ifs <;> simp_all
+theorem eq_persp_ortho (n f l r t b n2 f2 l2 r2 t2 b2 : α) : Gen.Frustum.eq_persp_ortho n f l r t b n2 f2 l2 r2 t2 b2 = (false, true) := by
+  simp only [Gen.Frustum.eq_persp_ortho]; split_ifs <;> rfl
+theorem eq_ortho_persp (n f l r t b n2 f2 l2 r2 t2 b2 : α) : Gen.Frustum.eq_ortho_persp n f l r t b n2 f2 l2 r2 t2 b2 = (false, true) := by
+  simp only [Gen.Frustum.eq_ortho_persp]; split_ifs <;> rfl
+theorem stores_persp (n f l r t b : α) (M : M44 α) : Gen.FrustumTest.stores_persp n f l r t b M = (n, f, l, r, t, b, false, M) := rfl
+theorem stores_ortho (n f l r t b : α) (M : M44 α) : Gen.FrustumTest.stores_ortho n f l r t b M = (n, f, l, r, t, b, true, M) := rfl
+/-- `FrustumTest ()` = `setFrustum (Frustum (), identity)` -/
+theorem frustumTest_defaultCtor (tmin tmax : α) (sqrt : α → α) :
+    Gen.FrustumTest.defaultCtor tmin tmax sqrt =
+      ((3602879701896397 : α) / 36028797018963968, 1000, -1, 1, 1, -1, false, identity44,
+        Gen.FrustumTest.setFrustum_persp tmin tmax sqrt ((3602879701896397 : α) / 36028797018963968) 1000 (-1) 1 1 (-1) identity44) := rfl
+/-- `Vec3 * Matrix44` re-extracted in this check is the `Gen.V3.mulM44` the projection theorems are stated with -/
+theorem V3mulM44_eq (v : V3 α) (m : M44 α) : Gen.Frustum.V3mulM44 v m = Gen.V3.mulM44 v m := rfl
+
+/-! the `point.z == 0` branch of the perspective `projectPointToScreen`: falls back to the orthographic formula -/
+theorem projectPointToScreen_persp_z0 (n f l r t b : α) (p : V3 α) (hz : p.z = 0) :
+    Gen.Frustum.projectPointToScreen_persp n f l r t b p = Gen.Frustum.localToScreen_persp n f l r t b ⟨p.x, p.y⟩ ∧
+    Gen.Frustum.projectPointToScreen_persp n f l r t b p = Gen.Frustum.projectPointToScreen_ortho n f l r t b p := by
+  constructor <;>
+    simp only [Gen.Frustum.projectPointToScreen_persp, if_pos hz, Gen.Frustum.localToScreen_persp, Gen.Frustum.projectPointToScreen_ortho]
+
+/-! the ray is a RAY: origin at the eye (perspective) / on the plane z = 0 (orthographic), unit direction, pointing forward (−z) -/
+theorem projectScreenToRay_persp_forward (tmin tmax : α) (sqrt : α → α) (hlen : LenSpec (Gen.V3.length tmin tmax sqrt)) (n f l r t b : α)
+    (hn : 0 < n) (s : V2 α) :
+    let L := Gen.Frustum.projectScreenToRay_persp tmin tmax sqrt n f l r t b s
+    L.pos = ⟨0, 0, 0⟩ ∧ normSq L.dir = 1 ∧ L.dir.z < 0 := by
+  have hv : normSq (⟨l + (r - l) * (1 + s.x) / 2 - 0, b + (t - b) * (1 + s.y) / 2 - 0, -n - 0⟩ : V3 α) ≠ 0 :=
+    normSq_ne_zero_of_z _ _ _ (by rw [sub_zero]; exact neg_ne_zero.mpr (ne_of_gt hn))
+  have hp := lenSpec_pos hlen _ hv
+  simp only [Gen.Frustum.projectScreenToRay_persp, if_neg (ne_of_gt hp)]
+  refine ⟨by trivial, normalizeWith_normSq hlen _ hv, ?_⟩
+  simp only [sub_zero]
+  exact div_neg_of_neg_of_pos (neg_neg_of_pos hn) (by simpa only [sub_zero] using hp)
+theorem projectScreenToRay_ortho_forward (tmin tmax : α) (sqrt : α → α) (hlen : LenSpec (Gen.V3.length tmin tmax sqrt)) (n f l r t b : α)
+    (s : V2 α) :
+    Gen.Frustum.projectScreenToRay_ortho tmin tmax sqrt n f l r t b s =
+      ⟨⟨(Gen.Frustum.screenToLocal_persp n f l r t b s).x, (Gen.Frustum.screenToLocal_persp n f l r t b s).y, 0⟩, ⟨0, 0, -1⟩⟩ := by
+  have h1 : Gen.V3.length tmin tmax sqrt ⟨0, 0, -1⟩ = 1 := lenSpec_eq_one hlen _ (by simp [normSq])
+  simp only [Gen.Frustum.projectScreenToRay_ortho, Gen.Frustum.screenToLocal_persp, sub_self, sub_zero, h1, one_ne_zero, if_false,
+    zero_div, div_one]
+
+/-! ## `fovx / fovy / aspect` OF the frustum made by `set (near, far, fovx, fovy, aspect)`, stated on the generated `setFov` itself -/
+/-- apply an accessor (a function of the six scalars) to a frustum state -/
+def onFrustum {β : Type} (g : α → α → α → α → α → α → β) (F : α × α × α × α × α × α × Bool) : β :=
+  g F.1 F.2.1 F.2.2.1 F.2.2.2.1 F.2.2.2.2.1 F.2.2.2.2.2.1
+theorem fovx_setFov (tan : α → α) (atan2 : α → α → α) (n f l r t b n' f' fovx fovy aspect : α) (hx : fovx ≠ 0)
+    (h1 : atan2 (n' * tan (fovx / 2)) n' = fovx / 2) (h2 : atan2 (-(n' * tan (fovx / 2))) n' = -(fovx / 2)) :
+    onFrustum (Gen.Frustum.fovx_persp atan2) (Gen.Frustum.setFov_persp tan n f l r t b n' f' fovx fovy aspect) = fovx := by
+  rw [setFov_fovx_form tan n f l r t b n' f' fovx fovy aspect hx]
+  simp only [onFrustum, Gen.Frustum.fovx_persp, h1, h2]; ring
+theorem fovy_setFov (tan : α → α) (atan2 : α → α → α) (n f l r t b n' f' fovy aspect : α)
+    (h1 : atan2 (n' * tan (fovy / 2)) n' = fovy / 2) (h2 : atan2 (-(n' * tan (fovy / 2))) n' = -(fovy / 2)) :
+    onFrustum (Gen.Frustum.fovy_persp atan2) (Gen.Frustum.setFov_persp tan n f l r t b n' f' 0 fovy aspect) = fovy := by
+  rw [setFov_fovy_form tan n f l r t b n' f' fovy aspect]
+  simp only [onFrustum, Gen.Frustum.fovy_persp, h1, h2]; ring
+theorem aspect_setFov_fovx (tan : α → α) (n f l r t b n' f' fovx fovy aspect : α) (hx : fovx ≠ 0) (ha : aspect ≠ 0)
+    (hw : n' * tan (fovx / 2) ≠ 0) :
+    onFrustum Gen.Frustum.aspect_persp (Gen.Frustum.setFov_persp tan n f l r t b n' f' fovx fovy aspect) = aspect := by
+  obtain ⟨hn', ht⟩ := mul_ne_zero_iff.mp hw
+  rw [setFov_fovx_form tan n f l r t b n' f' fovx fovy aspect hx]
+  simp only [onFrustum, Gen.Frustum.aspect_persp]
+  field_simp <;> ring
+theorem aspect_setFov_fovy (tan : α → α) (n f l r t b n' f' fovy aspect : α) (hw : n' * tan (fovy / 2) ≠ 0) :
+    onFrustum Gen.Frustum.aspect_persp (Gen.Frustum.setFov_persp tan n f l r t b n' f' 0 fovy aspect) = aspect := by
+  obtain ⟨hn', ht⟩ := mul_ne_zero_iff.mp hw
+  rw [setFov_fovy_form tan n f l r t b n' f' fovy aspect]
+  simp only [onFrustum, Gen.Frustum.aspect_persp]
+  field_simp <;> ring
+
 /-! ## non-vacuity: a concrete asymmetric frustum over ℚ (near 1, far 10, window [-2,3] × [-1,2]) and the length hypothesis -/
 example : (1 : ℚ) ≠ 0 ∧ (10 : ℚ) ≠ 0 ∧ (1 : ℚ) ≠ 10 ∧ (-2 : ℚ) ≠ 3 ∧ (-1 : ℚ) ≠ 2 ∧ (0 : ℚ) < 1 ∧ (1 : ℚ) < 10 ∧ (-2 : ℚ) < 3 ∧ (-1 : ℚ) < 2 := by
   norm_num
